@@ -835,6 +835,12 @@ def matmul(a, b):
     return _wrap(_np.dot(A, B))
 
 
+def void(x):
+    if hasattr(x, "sym_value"):
+        x = x.sym_value()
+    return _np.void(x)
+
+
 def isfinite(x):
     if not has_sym(x):
         return _np.isfinite(x)
@@ -981,6 +987,7 @@ SHIMS = dict(
     dot=dot,
     matmul=matmul,
     isfinite=isfinite,
+    void=void,
     isnan=isnan,
     ptp=ptp,
     shape=shape,
@@ -1011,6 +1018,13 @@ class NPFacade(types.ModuleType):
         super().__init__("symx_np")
         self._extra = dict(extra or {})
         self.used = set()
+
+    def __reduce__(self):
+        # cloudpickle serialises functions together with the module globals they reference: the
+        # facade stands for numpy, so it pickles as a reference to numpy
+        import importlib
+
+        return (importlib.import_module, ("numpy",))
 
     def __getattr__(self, name):
         if name.startswith("__"):
@@ -1230,6 +1244,11 @@ class SPFacade(types.ModuleType):
     def __init__(self):
         super().__init__("symx_sp")
         self.linalg = _SPLinalg()
+
+    def __reduce__(self):
+        import importlib
+
+        return (importlib.import_module, ("scipy.sparse",))
 
     @staticmethod
     def csr_array(arg1, shape=None, **k):
